@@ -192,3 +192,7 @@ Proof.
   destruct (classify_token tok_number s); try reflexivity.
   destruct (mem_str s special_floats); [reflexivity|]. rewrite H. reflexivity.
 Qed.
+
+Lemma json_number_example :
+  json_number [45; 49; 46; 53; 101; 43; 51] = true /\ json_number [48] = true /\ json_number [48; 49] = false.
+Proof. repeat split; reflexivity. Qed.
